@@ -299,9 +299,15 @@ fn mtenet<F: Scalar>(pr: &Params) {
     let centred = pr.u("centred", 0) == 1;
     let ob = pr.u("ob", 47);
     let mutate = pr.u("mut", 0);
-    let mut x = Array2::from_elem((n, 1), F::lit(0.0));
+    // `p` > 1: several (possibly correlated) features; only finiteness and the sign of the duality gap are
+    // demanded then (the group-lasso KKT obligations below are written for one feature)
+    let pfeat = pr.u("p", 1);
+    let mut x = Array2::from_elem((n, pfeat), F::lit(0.0));
     for i in 0..n {
         x[(i, 0)] = int::<F>(&format!("x{}", i), -b, b);
+        for j in 1..pfeat {
+            x[(i, j)] = int::<F>(&format!("x{}_{}", i, j), -b, b);
+        }
     }
     let mut y = Array2::from_elem((n, tasks), F::lit(0.0));
     for i in 0..n {
@@ -348,7 +354,14 @@ fn mtenet<F: Scalar>(pr: &Params) {
     if !finite {
         return;
     }
-    check_bool("mtenet.hyperplane is (features x tasks)", hp.dim() == (1, tasks));
+    check_bool("mtenet.hyperplane is (features x tasks)", hp.dim() == (pfeat, tasks));
+    if pfeat > 1 {
+        if ob & OB_GAP_SIGN != 0 {
+            check("mtenet.duality gap is non-negative", F::lit(-TOL).s_le(model.duality_gap()));
+        }
+        observe(model.duality_gap());
+        return;
+    }
     let mut w: Vec<F> = (0..tasks).map(|t| hp[(0, t)]).collect();
     let b0: Vec<F> = model.intercept().to_vec();
     let mut gap = model.duality_gap();
